@@ -424,10 +424,17 @@ class Wtp:
     def backup_db(self) -> None:
         self.backup_db_path.unlink(True)
         self.db_conn.commit()
-        backup_conn = sqlite3.connect(self.backup_db_path)
+        # Copy to a temporary name first: `create_db()` treats the existence
+        # of `backup_db_path` as "a complete backup is available"
+        temp_path = self.backup_db_path.with_name(
+            self.backup_db_path.name + ".tmp"
+        )
+        temp_path.unlink(True)
+        backup_conn = sqlite3.connect(temp_path)
         with backup_conn:
             self.db_conn.backup(backup_conn)
         backup_conn.close()
+        temp_path.replace(self.backup_db_path)
 
     def close_db_conn(self) -> None:
         assert self.db_path
